@@ -227,8 +227,11 @@ def bad_transitions(log):
         if tbl == "file":
             if (old, new) in FILE_OK:
                 continue
-            # recycling through File.initialize_row may request any declarable state or UNDECLARED
-            if new in (11, 12, 15, 18):
+            # recycling through File.initialize_row may request any declarable state or UNDECLARED,
+            # except that a former build product never becomes UNDECLARED: its output state is
+            # carried over (documented in FILE_SCHEMA: an UNDECLARED row's hash never has an
+            # output-role origin)
+            if new in (11, 12, 15, 18) and not (old in (16, 17) and new == 11):
                 continue
             out.append(("file-transition", f"{node}: {FS.get(old)} -> {FS.get(new)}"))
         elif tbl == "step":
